@@ -5,11 +5,29 @@ mod codec;
 mod ctx;
 mod iso;
 mod props;
+mod gen;
+mod refparse;
+mod strict;
+mod refwriter;
 
 use ctx::{Ctx, Tier};
 
+struct StderrLog;
+impl log::Log for StderrLog {
+    fn enabled(&self, _: &log::Metadata) -> bool { true }
+    fn log(&self, r: &log::Record) { eprintln!("[{}] {}", r.level(), r.args()); }
+    fn flush(&self) {}
+}
+static LOGGER: StderrLog = StderrLog;
+
 fn main() {
     let args: Vec<String> = std::env::args().collect();
+    if std::env::var("VERIF_LOG").is_ok() { let _ = log::set_logger(&LOGGER); log::set_max_level(log::LevelFilter::Debug); }
+    if args.len() >= 3 && args[1] == "debug-load" {
+        let hexs = std::fs::read_to_string(&args[2]).expect("read"); let b = codec::unhex(hexs.trim()).expect("hex");
+        match lopdf::Document::load_mem(&b) { Ok(d) => { for (id, o) in &d.objects { println!("{:?} {}", id, codec::show_obj(o).chars().take(100).collect::<String>()); } println!("trailer {}", codec::show_obj(&lopdf::Object::Dictionary(d.trailer.clone()))); } Err(e) => println!("ERR {:?}", e) }
+        return;
+    }
     if args.len() < 2 { eprintln!("usage: vharness <Cxx> [--tier t] [--seed n] [--out dir] [--drv path] [--only id]"); std::process::exit(2); }
     if args[1] == "worker" { iso::worker_main(&args[2..]); return; }
     let prop = args[1].clone();
